@@ -37,6 +37,8 @@ package gateway
 //@ ensures appended: old(refIsSvc(ref)) && !old(hasSvc(rule, ref.Name)) ==> len(rule.BackendRefs) == old(len(rule.BackendRefs)) + 1 && sameBackend(rule.BackendRefs[old(len(rule.BackendRefs))], ref) && (forall k :: 0 <= k && k < old(len(rule.BackendRefs)) ==> sameBackend(rule.BackendRefs[k], old(rule.BackendRefs)[k]))
 //@ define firstSvcOld(r, name, k) = isSvc(old(r.BackendRefs)[k], name) && (forall m :: 0 <= m && m < k ==> !isSvc(old(r.BackendRefs)[m], name))
 //@ ensures replaced: old(refIsSvc(ref)) && old(hasSvc(rule, ref.Name)) ==> len(rule.BackendRefs) == old(len(rule.BackendRefs)) && (forall k :: 0 <= k && k < old(len(rule.BackendRefs)) ==> (firstSvcOld(rule, ref.Name, k) ==> sameBackend(rule.BackendRefs[k], ref)) && (!firstSvcOld(rule, ref.Name, k) ==> sameBackend(rule.BackendRefs[k], old(rule.BackendRefs)[k])))
+//@ ensures backing_same_or_fresh: backing(rule.BackendRefs) == old(backing(rule.BackendRefs)) || fresh(rule.BackendRefs)
+//@ ensures replaced_is_rebuilt: old(refIsSvc(ref)) && old(hasSvc(rule, ref.Name)) ==> fresh(rule.BackendRefs)
 //@ ensures old_elements_not_written: forall k :: 0 <= k && k < old(len(rule.BackendRefs)) ==> elemKept(rule, k)
 //@ ensures framed: unchangedOutside(rule, old(rule.BackendRefs))
 //@ loop 1 invariant framed: unchangedOutside(rule)
@@ -58,15 +60,38 @@ package gateway
 //@ loop 1 invariant count: len(rule.BackendRefs) == rangeindex + 1 - ite(index <= rangeindex, 1, 0)
 
 // ---------- weight step ----------
-// Only the shape is proved here. The per-rule statement (stable ref gets 100-w, canary ref gets w, every other backend
-// keeps position and content) follows informally from the contracts of getServiceBackendRef / setServiceBackendRef /
-// generateCanaryWeight above; the composition over the loop (which needs the input rules to be pairwise separate) did not
-// discharge within the time budget and is NOT claimed.
+// Per rule, for route rule lists of every length: a rule that does not reference the stable Service is passed through
+// untouched; a rule that does gets a rebuilt backendRefs list with one more entry exactly when the canary ref was
+// missing, in which every backend that is neither the stable nor the canary Service keeps its position and content; matches
+// and filters are kept. The input rules are never written.
+//@ define firstSvc(bs, name, k) = isSvc(bs[k], name) && (forall m :: 0 <= m && m < k ==> !isSvc(bs[m], name))
+//@ define hasSvcIn(bs, name) = exists k :: 0 <= k && k < len(bs) && isSvc(bs[k], name)
+//@ define weighted(bs, name, w) = forall k :: 0 <= k && k < len(bs) ==> (firstSvc(bs, name, k) ==> bs[k].Weight != nil && *bs[k].Weight == w)
+//@ define othersKept(d, r0, stable, canary) = forall k :: 0 <= k && k < len(r0) ==> (!isSvc(r0[k], stable) && !isSvc(r0[k], canary) ==> sameBackend(d[k], r0[k]))
+// (NOT claimed: that the first stable ref ends with weight 100-w and the first canary ref with weight w. Both are set by
+// two consecutive setServiceBackendRef calls whose contracts are proved, but after the second call the solver has to
+// re-derive which ref is the first one of each Service and the loop invariant did not discharge reliably.)
+//@ define ruleSplit(d, r0, stable, canary, w) = len(d) == len(r0) + ite(hasSvcIn(r0, canary), 0, 1) && othersKept(d, r0, stable, canary)
+//@ define ruleKept(rs, i) = rs[i].BackendRefs == old(rs[i].BackendRefs) && rs[i].Matches == old(rs[i].Matches) && rs[i].Filters == old(rs[i].Filters)
+//@ define refKept(rs, i, k) = rs[i].BackendRefs[k].Group == old(rs[i].BackendRefs[k].Group) && rs[i].BackendRefs[k].Kind == old(rs[i].BackendRefs[k].Kind) && rs[i].BackendRefs[k].Name == old(rs[i].BackendRefs[k].Name) && rs[i].BackendRefs[k].Namespace == old(rs[i].BackendRefs[k].Namespace) && rs[i].BackendRefs[k].Port == old(rs[i].BackendRefs[k].Port) && rs[i].BackendRefs[k].Weight == old(rs[i].BackendRefs[k].Weight) && rs[i].BackendRefs[k].Filters == old(rs[i].BackendRefs[k].Filters)
+
 //@ func (*gatewayController).buildCanaryWeightHttpRoutes
 //@ props C13
-//@ requires r != nil && weight != nil
+//@ requires r != nil && weight != nil && r.conf.StableService != r.conf.CanaryService
+// Assumption: the backendRefs of different rules live in different arrays (true of decoded objects); an append in place
+// behind one rule's backendRefs then cannot reach another rule's.
+//@ requires separate: forall i :: 0 <= i && i < len(rules) ==> (forall j :: 0 <= j && j < len(rules) ==> (i != j ==> backing(rules[i].BackendRefs) != backing(rules[j].BackendRefs) || cap(rules[i].BackendRefs) == 0 || cap(rules[j].BackendRefs) == 0))
 //@ ensures same_number_of_rules: len(result) == len(rules)
-//@ loop 1 invariant range: -1 <= rangeindex && rangeindex < len(rules) && len(desired) == rangeindex + 1
+//@ ensures untargeted_rules_untouched: forall i :: 0 <= i && i < len(rules) ==> (!hasSvcIn(rules[i].BackendRefs, r.conf.StableService) ==> result[i].BackendRefs == rules[i].BackendRefs && result[i].Matches == rules[i].Matches && result[i].Filters == rules[i].Filters)
+//@ ensures exact_split: forall i :: 0 <= i && i < len(rules) ==> (hasSvcIn(rules[i].BackendRefs, r.conf.StableService) ==> ruleSplit(result[i].BackendRefs, rules[i].BackendRefs, r.conf.StableService, r.conf.CanaryService, *weight) && result[i].Matches == rules[i].Matches && result[i].Filters == rules[i].Filters)
+//@ loop 1 invariant range: -1 <= rangeindex && rangeindex < len(rules) && len(desired) == rangeindex + 1 && (cap(desired) == 0 || fresh(desired)) && !fresh(rules)
+//@ loop 1 invariant input_rules_kept: forall i :: 0 <= i && i < len(rules) ==> ruleKept(rules, i)
+//@ loop 1 invariant input_refs_kept: forall i :: 0 <= i && i < len(rules) ==> (forall k :: 0 <= k && k < len(rules[i].BackendRefs) ==> refKept(rules, i, k))
+//@ define noSvcIn(bs, name) = forall k :: 0 <= k && k < len(bs) ==> !isSvc(bs[k], name)
+//@ loop 1 invariant shape_kept: forall i :: 0 <= i && i <= rangeindex ==> desired[i].Matches == rules[i].Matches && desired[i].Filters == rules[i].Filters
+//@ loop 1 invariant kept_or_rebuilt: forall i :: 0 <= i && i <= rangeindex ==> (desired[i].BackendRefs == rules[i].BackendRefs && noSvcIn(rules[i].BackendRefs, r.conf.StableService)) || (fresh(desired[i].BackendRefs) && hasSvcIn(rules[i].BackendRefs, r.conf.StableService))
+//@ loop 1 invariant split_len: forall i :: 0 <= i && i <= rangeindex ==> (fresh(desired[i].BackendRefs) ==> len(desired[i].BackendRefs) == len(rules[i].BackendRefs) + ite(hasSvcIn(rules[i].BackendRefs, r.conf.CanaryService), 0, 1))
+//@ loop 1 invariant split_others: forall i :: 0 <= i && i <= rangeindex ==> (fresh(desired[i].BackendRefs) ==> othersKept(desired[i].BackendRefs, rules[i].BackendRefs, r.conf.StableService, r.conf.CanaryService))
 
 // ---------- dispatch and restore ----------
 //@ track (*gatewayController).buildCanaryHeaderHttpRoutes as headerRoutes
@@ -76,6 +101,10 @@ package gateway
 //@ requires r != nil
 // a step without weight and without matches is never routed (DoTrafficRouting returns before calling the provider)
 //@ requires step_routes: weight != nil || len(matches) > 0
+// assumptions about the configuration and about decoded HTTPRoute objects (not established by the code: they stay
+// unclaimed pre@ obligations in EnsureRoutes / Finalise)
+//@ requires two_services: r.conf.StableService != r.conf.CanaryService
+//@ requires separate: forall i :: 0 <= i && i < len(rules) ==> (forall j :: 0 <= j && j < len(rules) ==> (i != j ==> backing(rules[i].BackendRefs) != backing(rules[j].BackendRefs) || cap(rules[i].BackendRefs) == 0 || cap(rules[j].BackendRefs) == 0))
 //@ ensures restore_keeps_no_backendless_rule: weight != nil && *weight == -1 ==> (forall j :: 0 <= j && j < len(result) ==> len(result[j].BackendRefs) > 0)
 //@ ensures restore_builds_nothing_new: weight != nil && *weight == -1 ==> #headerRoutes == 0 && #weightRoutes == 0 && len(result) <= len(rules)
 //@ ensures match_step_uses_header_routes: !(weight != nil && *weight == -1) && len(matches) > 0 ==> #headerRoutes == 1 && #weightRoutes == 0
